@@ -229,3 +229,49 @@ func (p *Program) AllFunctions() []*ssa.Function {
 	sort.Slice(out, func(i, j int) bool { return out[i].String() < out[j].String() })
 	return out
 }
+
+// Results returns the values a return instruction returns, looking through the
+// spill go/ssa inserts in functions that contain a defer:
+//
+//	*r0 = v0; *r1 = v1; rundefers; t0 = *r0; t1 = *r1; return t0, t1
+//
+// For such a return the stored values v0, v1 are reported (a deferred call
+// that assigns a named result is not modelled: the cells are local and no
+// deferred closure in the module captures one; if one ever does, the load is
+// left in place and the rules treat it as an unknown value).
+func Results(r *ssa.Return) []ssa.Value {
+	out := make([]ssa.Value, len(r.Results))
+	for i, v := range r.Results {
+		out[i] = v
+		ld, ok := v.(*ssa.UnOp)
+		if !ok || ld.Op != token.MUL {
+			continue
+		}
+		al, ok := ld.X.(*ssa.Alloc)
+		if !ok {
+			continue
+		}
+		// the cell must be written only by plain stores (no closure captures it)
+		captured := false
+		for _, ref := range *al.Referrers() {
+			switch ref.(type) {
+			case *ssa.Store, *ssa.UnOp:
+			default:
+				captured = true
+			}
+		}
+		if captured {
+			continue
+		}
+		var last ssa.Value
+		for _, ins := range r.Block().Instrs {
+			if st, ok := ins.(*ssa.Store); ok && st.Addr == ssa.Value(al) {
+				last = st.Val
+			}
+		}
+		if last != nil {
+			out[i] = last
+		}
+	}
+	return out
+}
